@@ -119,6 +119,13 @@ def menagerie(ps, rnd):
     objs = [('up', up, True), ('up-again', signatures.signature(f), True), ('up-other-function', signatures.signature(f2), True),
             ('sigtools', sigtools.signature(f), True), ('plain', inspect.signature(f), True), ('plain-twin', plain_twin(up), True),
             ('up-future', signatures.signature(ff), True), ('merged', signatures.merge(up, signatures.signature(f2)), True)]
+    # postponed annotations that cannot be evaluated (a name imported for type checking only): comparisons must still answer
+    try:
+        fu = absig.make_func([dict(p, an=(7 if p['an'] else 0)) for p in ps], name='f', future=True, extra_globals={'A7': None}, ret='Missing')
+        del fu.__globals__['A7']
+        objs += [('up-unresolvable', signatures.signature(fu), True), ('up-unresolvable-again', signatures.signature(fu), True)]
+    except Exception:  # noqa
+        pass
     params = list(up.parameters.values())
     if params:
         p0 = params[0]
@@ -177,11 +184,23 @@ def events_for(tid, ps, rnd):
     r1 = up.replace(parameters=params[1:])
     r2 = up.replace(sources={})
     r3 = up.replace(upgraded_return_annotation=newann, return_annotation=absig.AN[34])
-    yield {'tid': tid + '/replace-sig', 'op': 'replace', 'type_kept': all(type(r) is signatures.UpgradedSignature for r in (r0, r1, r2, r3)),
+    # a list mixing upgraded parameters with a plain inspect one: the upgraded ones must come through untouched
+    extra = inspect.Parameter('zq', inspect.Parameter.KEYWORD_ONLY, default=1)
+    cut = len(params) - 1 if params and params[-1].kind == params[-1].VAR_KEYWORD else len(params)
+    with warnings.catch_warnings():
+        warnings.simplefilter('ignore')
+        r4 = up.replace(parameters=params[:cut] + [extra] + params[cut:])
+    mixed_ok = all(q is p0_ for p0_, q in zip(params[:cut], list(r4.parameters.values())[:cut])) and \
+        all(q.sources == p0_.sources and q.upgraded_annotation is p0_.upgraded_annotation and q._function is p0_._function
+            for p0_, q in zip(params, [x for x in r4.parameters.values() if x.name != 'zq']))
+    r5 = up.replace(parameters=(p for p in params))            # any iterable, as inspect.Signature.replace accepts
+    yield {'tid': tid + '/replace-sig', 'op': 'replace', 'type_kept': all(type(r) is signatures.UpgradedSignature for r in (r0, r1, r2, r3, r4, r5)),
            'kept': {'sources': r0.sources == up.sources and r1.sources == up.sources and r3.sources == up.sources,
                     'upgraded_return': r0.upgraded_return_annotation is up.upgraded_return_annotation and r1.upgraded_return_annotation is up.upgraded_return_annotation,
-                    'parameters': list(r0.parameters.values()) == params and all(type(p) is signatures.UpgradedParameter for p in r1.parameters.values())},
-           'taken': {'sources': r2.sources == {}, 'upgraded_return': r3.upgraded_return_annotation is newann, 'parameters': len(r1.parameters) == max(0, len(params) - 1)},
+                    'parameters': list(r0.parameters.values()) == params and all(type(p) is signatures.UpgradedParameter for p in r1.parameters.values()),
+                    'upgraded_parameters_in_mixed_list': mixed_ok},
+           'taken': {'sources': r2.sources == {}, 'upgraded_return': r3.upgraded_return_annotation is newann, 'parameters': len(r1.parameters) == max(0, len(params) - 1),
+                     'parameters_from_generator': list(r5.parameters) == list(up.parameters)},
            'case': {'ps': ps}}
     if params:
         p0 = params[0]
